@@ -233,3 +233,20 @@ Definition spec_client (c : client_cfg) (r : auth_resp) : decision :=
 
 (* the rate a decision reports to the application *)
 Definition reported (d : decision) : N := match d with Brutal r => r | Configured => 0 end.
+
+(* "reported = enforced": what the application is told (rep) is the decided rate, and the installed
+   controller i is a Brutal sender constructed with exactly that rate / the configured controller *)
+Definition enforced_as_reported (d : decision) (t : cctype) (i : installed) (rep : N) : Prop :=
+  match d with
+  | Brutal r => rep = r /\ i = IBrutal (Z.of_N r)
+  | Configured => rep = 0 /\ i = use_configured t
+  end.
+
+(* the mathematical value of a string of decimal digits, left to right (specification of the decoder) *)
+Definition dstep (x : N) (c : byte) : N := x * 10 + (b2n c - 48).
+Definition dval_acc (a : N) (s : list byte) : N := fold_left dstep s a.
+Definition dval (s : list byte) : N := dval_acc 0 s.
+
+(* "18446744073709551615" *)
+Definition str_max : list byte :=
+  [x31;x38;x34;x34;x36;x37;x34;x34;x30;x37;x33;x37;x30;x39;x35;x35;x31;x36;x31;x35].
